@@ -7,7 +7,7 @@ operation via both default behaviors as well as per YAML Path behaviors.
 Copyright 2020, 2021 William W. Kimball, Jr. MBA MSIS
 """
 import sys
-from copy import deepcopy
+from io import StringIO
 import argparse
 import json
 from os import access, R_OK, remove
@@ -454,13 +454,19 @@ def merge_matrix(
 ) -> int:
     """Condense LHS and RHS multi-docs together into one."""
     return_state = 0
+    yaml_editor = Parsers.get_yaml_editor()
     for lhs_doc in lhs_docs:
         for rhs_doc in rhs_docs:
             try:
                 # Every LHS document gets its own copy of the RHS document
                 # lest nodes merged into one LHS document be shared with --
-                # and later merged into -- all the others.
-                lhs_doc.merge_with(deepcopy(rhs_doc.data))
+                # and later merged into -- all the others.  The copy is
+                # taken through the document's text because a deepcopy turns
+                # what YAML Merge Keys refer to into keys of the referring
+                # Hash itself.
+                rhs_text = StringIO()
+                yaml_editor.dump(rhs_doc.data, rhs_text)
+                lhs_doc.merge_with(yaml_editor.load(rhs_text.getvalue()))
             except MergeException as mex:
                 log.error(mex)
                 return_state = 41
